@@ -987,4 +987,71 @@ Section NInv.
       + intros T k q Ho. rewrite Seq_set_ln. destruct (q =? n); [|apply (n_seq s HN T k q Ho)].
         cbn. split; [intros Ha Y [<-|[]]; left; exact Ha|]. split; [intros _ Y []|exact I].
   Qed.
+  Lemma NInv_step_become s c s' : lreachable s -> NInv s -> lrule (LEl (LBecomeLeader c)) s = Some s' -> NInv s'.
+  Proof.
+    intros Hr HN H.
+    pose proof (lreachable_LInv inc out inc_nonempty Hmulti s Hr) as HL.
+    pose proof (lreachable_EInv inc out inc_nonempty Hmulti s Hr) as HE.
+    pose proof (lreachable_el _ _ _ Hr) as Hre.
+    pose proof (reachable_Inv inc out _ Hre) as HIe.
+    assert (HB : forall T k, Block s T k -> Block s' T k) by (intros; eapply Block_step; eassumption).
+    destruct (lel_inv _ _ _ _ _ H) as (e' & He & Hel & Hcl & Hs).
+    assert (Hre' : reachable inc out e') by (eapply reach_step; eassumption).
+    pose proof (reachable_Inv inc out _ Hre') as HIe'.
+    destruct (become_leader_inv _ _ _ _ _ He) as (Hpc & Hup & Hq & Ee).
+    assert (Et : p_term (nodes e' c) = p_term (nodes (el s) c))
+      by (rewrite Ee; cbn; rewrite N.eqb_refl; reflexivity).
+    set (t := p_term (nodes (el s) c)) in *.
+    destruct (inv_self _ _ _ HIe c) as [Hvc Hc0]; [congruence|].
+    apply (NInv_append s (LEl (LBecomeLeader c)) s' c (t, 0) Hr H HN).
+    - rewrite Hel, <- Et. exact Hs.
+    - right. cbn [eterm fst]. apply (new_leader_llog_nil inc out inc_nonempty Hmulti s c e' Hr HL He).
+    - intros q c0 t0 Hc00 HV. rewrite Hel in HV.
+      destruct (Vote_step inc out (el s) _ e' q c0 t0 HIe He HV Hc00) as [V|[E|[E _]]];
+        [exact V|discriminate E|discriminate E].
+    - cbn [eterm fst]. intros T k Ho HTt.
+      destruct (Agree_dec (llog s) T k (l_log (ln s c))) as [Ha|Hna]; [left; exact Ha|right].
+      (* every recorded grant comes from a node that has not promised (T, k) *)
+      assert (Hall : (forall z, In z (p_granted (nodes (el s) c)) -> ~ promised s z T k) \/ Block s T k).
+      { apply all_or; [intros z; apply promised_dec|]. intros z Hz HP.
+        assert (HV : Vote (el s) z c t).
+        { destruct (inv_granted _ _ _ HIe c z Hpc Hz) as [->|Hv]; [|right; exact Hv].
+          left. apply in_or_app. right. left. unfold vol. rewrite Hvc. reflexivity. }
+        destruct (n_vote s HN T k z c t Ho HTt HP HV Hc0) as [Ha|Hb]; [|exact Hb].
+        exfalso. apply Hna. rewrite Hcl, Et. exact Ha. }
+      destruct Hall as [Hall|Hb]; [|apply HB; exact Hb].
+      exists (p_granted (nodes (el s) c)). split; [exact Hq|]. intros z Hz.
+      assert (Hd : t <= p_dterm (nodes (el s') z)).
+      { rewrite Hel. destruct (inv_granted _ _ _ HIe c z Hpc Hz) as [->|Hv].
+        - apply (voted_le_dterm inc out e' c t c HIe').
+          apply (leader_vote_durable inc out Hmulti e' t c Hre'). rewrite Ee. cbn.
+          fold t. rewrite N.eqb_refl. left. reflexivity.
+        - pose proof (voted_le_dterm inc out _ _ _ _ HIe Hv).
+          pose proof (dterm_mono inc out (el s) _ e' z HIe He). fold t in H0. lia. }
+      split; [lia|]. intros HP.
+      destruct (promised_step inc out _ _ _ _ _ _ H HP) as [HP0|E]; [exact (Hall z Hz HP0)|].
+      assert (t <= p_term (nodes (el s) z)); [|lia].
+      destruct (inv_granted _ _ _ HIe c z Hpc Hz) as [->|Hv]; [unfold t; lia|].
+      pose proof (voted_le_dterm inc out _ _ _ _ HIe Hv). pose proof (dterm_le_term inc out (el s) z HIe).
+      fold t in H0. lia.
+  Qed.
+
+  Lemma NInv_step_propose s c x s' : lreachable s -> NInv s -> lrule (LPropose c x) s = Some s' -> NInv s'.
+  Proof.
+    intros Hr HN H.
+    pose proof (lreachable_LInv inc out inc_nonempty Hmulti s Hr) as HL.
+    pose proof (lreachable_el _ _ _ Hr) as Hre.
+    assert (HB : forall T k, Block s T k -> Block s' T k) by (intros; eapply Block_step; eassumption).
+    pose proof H as H0. apply lpropose_inv in H0. destruct H0 as (Hl & Hs).
+    assert (Eel : el s' = el s) by (rewrite Hs; reflexivity).
+    pose proof Hl as Hl'. apply own_term_leader_spec in Hl'. destruct Hl' as [Hrl Hup].
+    set (t := p_term (nodes (el s) c)) in *.
+    apply (NInv_append s (LPropose c x) s' c (t, x) Hr H HN).
+    - rewrite Eel. exact Hs.
+    - left. cbn [eterm fst]. symmetry. apply (li_B s HL c Hl).
+    - intros q c0 t0 _ HV. rewrite Eel in HV. exact HV.
+    - cbn [eterm fst]. intros T k Ho HTt. rewrite (li_B s HL c Hl). fold t.
+      destruct (n_lead s HN T k t Ho HTt) as [Ha|Hb]; [|left; exact Ha|right; apply HB; exact Hb].
+      apply (leader_llog_nonempty s Hr t c). apply (leader_recorded inc out); assumption.
+  Qed.
 End NInv.
